@@ -13,17 +13,7 @@ import (
 func runUnblock(d Desc) mon.Result {
 	t0 := time.Now()
 	key := "c16/" + d.T + "/unblock:" + d.How
-	var l *link
-	var err error
-	var sl *sshLink
-	if d.T == "system-ssh" {
-		sl, err = openSSHLink(d.ReadSize)
-		if sl != nil {
-			l = sl.link
-		}
-	} else {
-		l, err = openLink(d.T, d.ReadSize)
-	}
+	l, err := openLink(d.T, d.ReadSize)
 	if err != nil {
 		if errors.Is(err, errSetup) || mon.LoadedSince(t0) {
 			return mon.Result{Verdict: mon.Inconclusive, Detail: "harness/load: " + err.Error()}
